@@ -23,7 +23,8 @@ if False:
     from .project import Project
 
 IMPORT_DELIMETERS = string.whitespace + '(,'
-IMPORT_END_DELIMETERS = string.whitespace + '),.;'
+IMPORT_END_DELIMETERS = string.whitespace + '),.;#\\'
+DEF_END_DELIMETERS = string.whitespace + '(:[#\\'
 
 
 class Unresolved(object):
@@ -240,8 +241,9 @@ class SourceScope(Scope):
         source = self.source.with_mark(position)
         return SourceScope(source)
 
-    def find_id_loc(self, id, start, shift=0, delimeters=True):
-        # type: (str, loc_t, int, bool) -> loc_t
+    def find_id_loc(self, id, start, shift=0, delimeters=True,
+                    end_delimeters=IMPORT_END_DELIMETERS):
+        # type: (str, loc_t, int, bool, str) -> loc_t
         sl, pos = start
         source = '\n'.join(self.source.lines[sl-1:sl+50])
         source_len = len(source)
@@ -252,7 +254,7 @@ class SourceScope(Scope):
 
             if pos == 0 or not delimeters or source[pos-1] in IMPORT_DELIMETERS:
                 ep = pos + len(id)
-                if ep >= source_len or not delimeters or source[ep] in IMPORT_END_DELIMETERS:
+                if ep >= source_len or not delimeters or source[ep] in end_delimeters:
                     return (sl + source.count('\n', 0, pos),
                             pos - source.rfind('\n', 0, pos) - 1 + shift)
 
@@ -334,7 +336,7 @@ class FuncScope(Scope, Location, Resolvable):
         else:
             fnode = node  # type: FunctionDef  # type: ignore[assignment]
             self.name = fnode.name
-            self.declared_at = top.find_id_loc(' ' + fnode.name, np(fnode), 1, False)
+            self.declared_at = top.find_id_loc(fnode.name, np(fnode), end_delimeters=DEF_END_DELIMETERS)
             self.location = get_first_body_node_loc(fnode.body) or (np(fnode.body[0])[0], np(fnode)[1] + 4)
             self.decorator_list = fnode.decorator_list
 
@@ -399,7 +401,7 @@ class ClassScope(Scope, Location, Resolvable):
         # type: (Scope, ClassDef, SourceScope) -> None
         Scope.__init__(self, parent, top)
         self.name = node.name
-        self.declared_at = top.find_id_loc(' ' + node.name, np(node), 1, False)
+        self.declared_at = top.find_id_loc(node.name, np(node), end_delimeters=DEF_END_DELIMETERS)
         self.location = np(node.body[0])
         self.flow = self.top.add_flow(Flow('class', self))
         self._bases = node.bases
